@@ -30,6 +30,7 @@ PROP_MODULES = {
     "C10": ["c01", "c03", "c10"],
     "C16": ["c16"],
     "C20": ["c20"],
+    "C14": ["c14"],
 }
 
 
